@@ -541,3 +541,79 @@ func checkDeepDescentUnfiltered(c *Ctx) {
 		}
 	}
 }
+
+// ---------------- C13.R6 (round 4 seed C13-E; C22.R3 pad-strip decides the same cut for C22): the padding the AES writer adds is the padding the reader removes ----------------
+
+// checkAESPaddingCut: encryptAESBytes pads with BlockSize - len%BlockSize bytes, i.e. 1..16 (a full block when the
+// plaintext is aligned). decryptAESBytes decides whether the last byte is a pad length by comparing it with a
+// constant; that cut has to lie exactly after 16: lower, and an aligned plaintext (a UTF-16BE text string of 7, 15, 23…
+// code units with its byte order mark) keeps its 16 pad bytes; higher, and data bytes are cut off.
+func checkAESPaddingCut(c *Ctx, rule string) {
+	p, r := c.P, c.R
+	const fid = "pkg/pdfcpu.decryptAESBytes"
+	fn := p.Func(fid)
+	if fn == nil {
+		r.Bad(rule, fid, "anchor", "", "UNRESOLVED-ANCHOR")
+		return
+	}
+	isByteLoad := func(v ssa.Value) bool {
+		for {
+			switch x := v.(type) {
+			case *ssa.Convert:
+				v = x.X
+				continue
+			case *ssa.UnOp:
+				if x.Op == token.MUL {
+					_, ok := x.X.(*ssa.IndexAddr)
+					return ok
+				}
+			}
+			return false
+		}
+	}
+	n := 0
+	eachInstr(fn, func(_ *ssa.BasicBlock, _ int, i ssa.Instruction) {
+		bo, ok := i.(*ssa.BinOp)
+		if !ok {
+			return
+		}
+		op := bo.Op
+		var k int64
+		switch {
+		case isByteLoad(bo.X):
+			kk, ok := constInt(bo.Y)
+			if !ok {
+				return
+			}
+			k = kk
+		case isByteLoad(bo.Y):
+			kk, ok := constInt(bo.X)
+			if !ok {
+				return
+			}
+			k = kk
+			op = mirrorOp(op)
+		default:
+			return
+		}
+		var cut int64
+		switch op {
+		case token.LEQ, token.GTR:
+			cut = k
+		case token.LSS, token.GEQ:
+			cut = k - 1
+		default:
+			return
+		}
+		n++
+		construct := fmt.Sprintf("pad length test#%d", n)
+		if cut == 16 {
+			r.OK(rule, fid, construct, p.Pos(bo.Pos()), "the last byte counts as a pad length up to and including 16 (the writer pads with 1..16 bytes)", true)
+		} else {
+			r.Bad(rule, fid, construct, p.Pos(bo.Pos()), fmt.Sprintf("the last byte counts as a pad length up to %d, the writer pads with 1..16 bytes: ", cut)+"a plaintext whose length is a multiple of 16 is written with a full pad block that is then kept as data (or data bytes are taken for padding) — strings and streams of such lengths do not decrypt to what was encrypted")
+		}
+	})
+	if n == 0 {
+		r.Bad(rule, fid, "pad length test", p.Pos(fn.Pos()), "UNDECIDED: no comparison of a data byte with a constant in decryptAESBytes (padding removal)")
+	}
+}
